@@ -97,15 +97,15 @@ theorem delta_assign {p p' : Pool} {self other c' : Cont} {so : Bool}
     Delta p p' c'.ownIds self.ownIds ∧ PoolPos p' := by
   unfold Cont.assign at h
   split at h
-  · cases h
+  · injection h with h; injection h with h1 h2; subst h1; subst h2
+    exact ⟨fun j => rfl, hp⟩
   · split at h
     · cases h
-    · rename_i p0 hr
-      obtain ⟨d0, hp0⟩ := delta_releaseOwn hr hp
-      split at h
-      · injection h with h; injection h with h1 h2; subst h1; subst h2
-        rw [ownIds_empty]; exact ⟨d0, hp0⟩
-      · split at h
+    · split at h
+      · cases h
+      · rename_i p0 hr
+        obtain ⟨d0, hp0⟩ := delta_releaseOwn hr hp
+        split at h
         · cases h
         · rename_i p1 es h1
           obtain ⟨d1, hp1⟩ := delta_shareOrConvert h1 hp0
